@@ -336,3 +336,14 @@ def hmc_trajectory_with_limits_is_a_reversible_proposal(h, d, n, mass):
     Bounds.reflect_momenta code as C07's unit, asserted here for C01"""
     from harness import c07
     c07.leapfrog_is_reversible(h, d, n, mass, True)
+
+
+@unit("C01", cost=3, floor_lemmas=True)
+def gibbs_proposal_with_limits_is_symmetric(h):
+    """'proposals are reversible' for Gibbs / Metropolis parameters with boundaries or non-negativity: the raw Gaussian
+    draw is symmetric, so the proposal stays symmetric iff the map that brings it back inside is the identity inside and an
+    even (mirror) fold outside, for any overshoot.  Same execution of Parameter.boundary_proposal / abs_proposal as C04's
+    units, asserted here for C01"""
+    from harness import c04
+    c04.boundary_proposal_fold(h)
+    c04.abs_proposal_fold(h)
